@@ -98,7 +98,10 @@ template <class G> Obs iterSeg(const G &g) {
         for (auto e : g.edges()) again.push_back(e);
         return 0; });
     if (code != 0) { o.push_back(code); o.push_back(code); o.push_back(code); return o; }
-    o.push_back(pre == post); o.push_back(pre == again);
+    // vertex enumeration with post-increment (*it++ and old = it++) must visit what range-for visits
+    std::vector<BaseGraph::VertexIndex> vfor, vpost; for (auto v : g) vfor.push_back(v);
+    { auto it = g.begin(); while (it != g.end()) { auto old = it++; vpost.push_back(*old); } }
+    o.push_back(pre == post && vfor == vpost); o.push_back(pre == again);
     o.push_back(guard([&]() -> Z { auto es = g.edges(); bool eq = es.begin() == es.end(); bool ne = es.begin() != es.end(); return eq == ne ? -7 : (Z)eq; }));
     return o;
 }
